@@ -16,7 +16,8 @@ type Class int
 const (
 	Library Class = iota // both accesses have a frame in the library
 	Mixed                // one side only in harness code (a caller-held value), the other in the library
-	Harness              // no library frame on either side
+	Harness              // a simulator frame on either side
+	Callers              // both sides are caller code (workload holding values): two holders were handed the same memory
 )
 
 type Report struct {
@@ -150,6 +151,11 @@ func parse(blk string) Report {
 	}
 	sim := (seen[0] && cls[0] == fSim) || (seen[1] && cls[1] == fSim)
 	switch {
+	case !sim && lib == 0 && seen[0] && seen[1] && cls[0] == fCaller && cls[1] == fCaller:
+		// workload tasks never share objects on purpose: if two of them race on the
+		// same memory, the library handed one object to two holders
+		rep.Class = Callers
+		tops = []string{"two-holders-share-one-object"}
 	case sim || lib == 0:
 		rep.Class = Harness
 	case lib == 2:
